@@ -12,6 +12,8 @@ import MW.Lemmas.ImportExact
 import MW.Lemmas.ImportJoinMain
 import MW.Lemmas.ImportExt
 import MW.Lemmas.ImportJoinExt
+import MW.Lemmas.ImportReorgS
+import MW.Lemmas.LedgerD2Ex
 namespace MW.Props.C07
 open MW MW.Model.Ledger MW.Model.Import MW.Lemmas.ImportPlan
 
@@ -793,6 +795,62 @@ theorem import_exact_extensions_joined (batch : Nat) (hb : batch > 0) (p : Param
     cases hk'
   · exact ⟨hI', h1⟩
 
+open MW.Lemmas.ImportExact MW.Lemmas.ImportReorg MW.Lemmas.Ledger in
+/-- **import_reorg_inv** (stage 2 of `import_exact_full`, REORGANISATIONS above / at / below the cursor; PARTIAL in one
+    respect: the restored keystore is the instance's only one).  Events (`MW.Lemmas.ImportReorg.stepR`): a worker batch
+    of any positive size, or the node switches to ANY other valid best chain `N` — an extension of its chain or
+    another branch forking anywhere above the genesis block — and the follower is notified of `N`'s tip at once:
+    `processBlock` → `reorg` (align, disconnect down to the fork with `rollback` and the cursor pull-back, connect up).
+    For EVERY such history (`AllGoodR`: each new chain is hash-linked, valid, shares the genesis block, block ids
+    determine blocks, the node still has the files of the blocks it orphaned) the invariant `RInv` is kept: the
+    follower's tip is the node's tip and either the wallet is importing and the store holds exactly the books of the
+    node's chain up to its cursor — a disconnect above the cursor finds no block record and changes nothing but the
+    synced-to table; a disconnect AT the cursor is C01's rollback of the tip block (`rollback_tipR`: Rollback works on
+    all balances whatever the wallets' status) and `pullBack` moves the cursor to the new tip; connecting books
+    nothing while nobody is ready — or the wallet is ready and C01's `Inv` holds (C01 `disconnect_sound` /
+    `connect_sound`).  The reorg loops are C01's, re-proved for an abstract store invariant (`MW.Lemmas.ImportReorg`). -/
+theorem import_reorg_inv (batch : Nat) (hb : batch > 0) (p : Params) (own : Own) (wallets : List Wid) (w : Wid)
+    (hAR : AllReady own [w]) (hws : wallets = [w]) (sys0 : XSys) (evs : List REv)
+    (hgood : AllGoodR batch p own wallets w sys0 evs) (h0 : RInv batch p own wallets w sys0) :
+    RInv batch p own wallets w (evs.foldl (stepR batch p own wallets w) sys0) :=
+  foldR_inv hb hAR hws evs sys0 hgood h0
+
+open MW.Lemmas.ImportExact MW.Lemmas.ImportReorg MW.Lemmas.Ledger in
+/-- **import_exact_reorg_partial.**  … hence: from the scan invariant (e.g. the import moment), after ANY history of
+    batches, extensions and reorganisations, whenever the wallet is done the store satisfies C01's `Inv` for the
+    node's CURRENT chain, the follower is at its tip and the unspent index is well-formed — the restored wallet
+    reports `Spec.Chain` of the chain the node ended on. -/
+theorem import_exact_reorg_partial (batch : Nat) (hb : batch > 0) (p : Params) (own : Own) (wallets : List Wid)
+    (w : Wid) (hAR : AllReady own [w]) (hws : wallets = [w]) (sys0 : XSys) (evs : List REv) (ws0 : WStatus) (k0 : Nat)
+    (hS : Scan { p := p, own := own, wallets := wallets, node := sys0.node } w sys0.s k0)
+    (hst : AMap.get sys0.s.status w = some ws0) (hk : ws0.synced = some k0) (hrm : ws0.removed = false)
+    (hle : k0 + 1 ≤ sys0.node.chain.length)
+    (hv : sys0.v.best = tipMeta sys0.node.chain) (hg : GoodChain sys0.node.chain)
+    (hval : ChainValid own sys0.node.chain) (hnb : sys0.node.chain.length + batch < 2 ^ 64)
+    (hgood : AllGoodR batch p own wallets w sys0 evs)
+    (hdone : AMap.get (evs.foldl (stepR batch p own wallets w) sys0).s.status w = some ⟨none, false⟩) :
+    Inv { p := p, own := own, wallets := wallets, node := (evs.foldl (stepR batch p own wallets w) sys0).node }
+        (evs.foldl (stepR batch p own wallets w) sys0).s (evs.foldl (stepR batch p own wallets w) sys0).node.chain ∧
+      (evs.foldl (stepR batch p own wallets w) sys0).v.best =
+        tipMeta (evs.foldl (stepR batch p own wallets w) sys0).node.chain ∧
+      KeysNodup (evs.foldl (stepR batch p own wallets w) sys0).s.unspent := by
+  obtain ⟨h1, h2, _⟩ := foldR_inv hb hAR hws evs sys0 hgood
+    ⟨Or.inl ⟨ws0, k0, hst, hk, hrm, hle, scanS_of_scan hS⟩, hv, hg, hval, hnb⟩
+  rcases h1 with ⟨ws, k, hst', hk', _⟩ | ⟨_, hI, hU⟩
+  · rw [hdone] at hst'
+    cases hst'
+    cases hk'
+  · exact ⟨hI, h2, hU⟩
+
+open MW.Lemmas.ImportExact MW.Lemmas.ImportReorg in
+/-- a notification event of `stepR` is the node movement `Ev.node N` followed by the notification `Ev.block b` of
+    `import_exact_full`'s semantics -/
+theorem stepR_is_stepEv (batch : Nat) (p : Params) (own : Own) (wallets : List Wid) (w : Wid) (sys : Sys)
+    (N : List Block) (b : Block) :
+    let r := stepEv batch p own wallets w (stepEv batch p own wallets w sys (.node N)) (.block b)
+    let x := stepR batch p own wallets w ⟨sys.node, sys.s, sys.v⟩ (.notify N b)
+    x.node = r.node ∧ x.s = r.s ∧ x.v = r.v := ⟨rfl, rfl, rfl⟩
+
 open MW.Lemmas.ImportExact in
 /-- the stage-2 events are events of `import_exact_full`'s semantics (`stepEv`): a batch is `Ev.batch`, an extension
     is the node movement `Ev.node (chain ++ [b])` followed by the notification `Ev.block b` -/
@@ -824,10 +882,13 @@ theorem stepX_is_stepEv (batch : Nat) (p : Params) (own : Own) (wallets : List W
     up with the node, the store satisfies `Inv` for the node's chain.  What is proved of it:
     `import_exact_static_full` (no event but batches, other wallets present), `import_exact_extensions_partial`
     (extensions, single keystore) and `import_exact_extensions_joined` (batches interleaved with tip extensions,
-    other ready wallets present, node and follower moving together).  Missing: (a) REORGANISATIONS: `rollback` /
-    `disconnectBlock` on a joined store (it looks addresses up in ALL keystores and undoes both halves; with
-    `pullBack` the `w`-half shrinks to the fork point) — C01's `rollback_connect` / `reorg_reaches` are proved for
-    stores with every wallet ready; (b) node movements that are not followed at once by their notification (a
+    other ready wallets present, node and follower moving together) and `import_exact_reorg_partial` (batches
+    interleaved with extensions AND reorganisations above / at / below the cursor, single keystore).  Missing: (a)
+    REORGANISATIONS WITH OTHER WALLETS PRESENT: `rollback` on a joined store (it looks addresses up in ALL keystores
+    and undoes both halves) — at the cursor the joined store IS the books of the full table and `rollback_tipR`
+    applies; ABOVE the cursor the block was booked for the ready wallets only and C01's `rollbackTx_refines` needs
+    hit-or-skip variants of its input / output loops (an input may spend a coin of `w` the follower ignored, an
+    output may pay `w` without a credit), cf. `spendFoldJ`; (b) node movements that are not followed at once by their notification (a
     batch then meets the followed-chain check: `batchHead_ok`); (c) histories with unconfirmed transactions
     (`recvTx`): the theorems above hold for ANY content of the pending buckets but the events are mined-side only. -/
 def import_exact_moving_full : Prop :=
@@ -1184,5 +1245,45 @@ example : (let r := Ex4.evs.foldl (Lemmas.ImportExact.stepX 1 ctx.p ctx2.own ctx
            (r.v.best, useWallet r.s ctx2.wallets "W1", walletBalance r.s "W1" 1, walletBalance r.s "W2" 1,
             (AMap.get r.s.blocks 2).map (·.2), (AMap.get r.s.blocks 3).map (·.2))) =
     (⟨3, "B3"⟩, .ok, some ⟨300, 300, 0, 0⟩, some ⟨209, 209, 0, 0⟩, some ["C2", "T3"], some ["C4"]) := by rfl
+
+-- stage 2 with a reorganisation: W1 (the only keystore) is rescanned with batch size 1 over S = G–B1–B2 (C01's "D2"
+-- witness); after the first batch (cursor 1) the node switches to N = G–B1–B2a–B3a and the follower is notified of
+-- B3a: it rolls B2 back (above the cursor) and connects B2a, B3a; three more batches finish the rescan on N.
+-- T1 (in B2a) pays W1 10, T2 (in B3a) spends it: the restored wallet ends with nothing, as Spec.Chain says.
+namespace Ex5
+open MW.Lemmas.Ledger
+def sys0 : Lemmas.ImportExact.XSys :=
+  { node := { chain := d2S, known := d2Known },
+    s := { sync := [(2, "B2"), (1, "B1"), (0, "G")], syncedTo := 2,
+           status := [("W1", ⟨some 0, false⟩)], balance := [("W1", 0)], addrs := [(("W1", false, "A1"), 0)] },
+    v := { best := ⟨2, "B2"⟩ } }
+def evs : List Lemmas.ImportReorg.REv := [.batch, .notify d2N d2B3a, .batch, .batch, .batch]
+end Ex5
+
+open MW.Lemmas.ImportExact MW.Lemmas.ImportReorg MW.Lemmas.Ledger in
+/-- every hypothesis of `import_exact_reorg_partial` holds on this history, and the wallet is done at the end: C01's
+    invariant for the chain the node ended on -/
+example : Inv { p := d2Ctx.p, own := d2Own, wallets := ["W1"],
+                node := (Ex5.evs.foldl (stepR 1 d2Ctx.p d2Own ["W1"] "W1") Ex5.sys0).node }
+    (Ex5.evs.foldl (stepR 1 d2Ctx.p d2Own ["W1"] "W1") Ex5.sys0).s d2N := by
+  have hnode : (Ex5.evs.foldl (stepR 1 d2Ctx.p d2Own ["W1"] "W1") Ex5.sys0).node.chain = d2N := by rfl
+  have hS : Scan { p := d2Ctx.p, own := d2Own, wallets := ["W1"], node := Ex5.sys0.node } "W1" Ex5.sys0.s 0 := by
+    refine scan_fresh (G := d2G) rfl rfl rfl rfl rfl rfl rfl rfl rfl ?_ rfl
+    intro h
+    match h with
+    | 0 => rfl
+    | 1 => rfl
+    | 2 => rfl
+    | (n + 3) => simp [Ex5.sys0, d2S, AMap.get, Spec.Books.syncOf]
+  have hgood : AllGoodR 1 d2Ctx.p d2Own ["W1"] "W1" Ex5.sys0 Ex5.evs := by
+    refine ⟨trivial, ⟨d2GoodN, rfl, d2IdInj, d2ValidN, d2KnownS, rfl, rfl, (fun h => nomatch h), by decide⟩,
+      trivial, trivial, trivial, trivial⟩
+  have := (import_exact_reorg_partial 1 (by decide) d2Ctx.p d2Own ["W1"] "W1" d2AllReady rfl Ex5.sys0 Ex5.evs
+    ⟨some 0, false⟩ 0 hS rfl rfl rfl (by decide) rfl d2GoodS d2ValidS (by decide) hgood (by rfl)).1
+  rw [hnode] at this
+  exact this
+example : (let r := Ex5.evs.foldl (Lemmas.ImportReorg.stepR 1 Lemmas.Ledger.d2Ctx.p Lemmas.Ledger.d2Own ["W1"] "W1") Ex5.sys0
+           (r.v.best, useWallet r.s ["W1"] "W1", walletBalance r.s "W1" 1, (AMap.get r.s.blocks 2).map (·.2))) =
+    (⟨3, "B3a"⟩, .ok, some ⟨0, 0, 0, 0⟩, some ["T1"]) := by rfl
 
 end MW.Props.C07
